@@ -17,11 +17,13 @@ from sexp import Sym
 
 from props import _dfrows_util as U
 
+U.warm()
+
 PROP = "C43"
 READY = True
 DRIVER = "dm_dfrows"
 LEAN_MODULES = ["DaskModel.Props.C43"]
-CASE_TIMEOUT_S = 30
+CASE_TIMEOUT_S = 60
 LEVEL_TEXT = (
     "Partial. Proved in Lean: a normal form for relational expressions over one source (FromPandas root, Projection "
     "list/scalar, Filter, Assign, Binop subclasses, Invert, literals) is sound (nf_sound), equality of normal forms up to the "
@@ -304,6 +306,9 @@ def _four_way(ctx, coll, expected):
 def case_api(ctx, inp):
     """programs outside the fragment: reductions inside predicates, shared sub-expressions, two consumers"""
     df = _mk(inp)
+    if inp["shape"] == "or-filter-binop" and U.splits_equal_labels(inp["index"], inp["lens"]):
+        ctx.note("skipped:alignment-needs-colocated-labels")   # index alignment is only partition-local for co-located labels
+        return
     d = U.from_parts(df, inp["lens"], known=inp.get("known", True))
     try:
         expected = _api_program(df, inp)
@@ -343,6 +348,20 @@ def _api_program(f, inp):
     if sh == "count":
         x = run_program(f, inp["prog"])
         return x[a].count()
+    if sh == "filter-then-reduction-filter":
+        # the second predicate compares with a reduction of the ALREADY FILTERED column: squashing the two
+        # filters must not move the reduction onto the unfiltered frame
+        y = f[f[a] > k]
+        red = getattr(y[b], inp.get("red", "mean"))()
+        z = y[y[b] >= red] if inp.get("red") != "count" else y[y[a] < red]
+        return z[[b, a]] if inp.get("tailsel") else z
+    if sh == "astype-filter":
+        g = f.assign(h=f[a] * 0.5).astype({"h": "int64"})
+        return g[g["h"] >= k][["h", b]]
+    if sh == "or-filter-binop":
+        x = f[[a, b]]
+        flt = x[((x[a] > k) & (x[b] > 0)) | ((x[a] > k) & (x[b] < -1))]
+        return (x - flt).assign(u=x[a])
     raise KeyError(sh)
 
 
@@ -410,13 +429,17 @@ def generate(ctx):
         inp["prog"] = gen_prog(rng, names, rng.randint(1, 5))
         inp["parts"] = rng.random() < 0.7
         yield "trace", inp
-    shapes = ["reduction-in-predicate", "two-consumers", "shared-filter", "sum-of-filtered-projection", "diamond", "count"]
-    for _ in range(ctx.n(70, 1000)):
+    shapes = ["reduction-in-predicate", "two-consumers", "shared-filter", "sum-of-filtered-projection", "diamond", "count",
+              "filter-then-reduction-filter", "filter-then-reduction-filter", "astype-filter", "or-filter-binop"]
+    for _ in range(ctx.n(90, 1000)):
         inp, names = gen_frame(rng)
         inp["prog"] = [st for st in gen_prog(rng, names, rng.randint(0, 3)) if st[0] != "sel"]
         inp["names"] = names
         inp["k"] = rng.randint(-1, 3)
         inp["shape"] = rng.choice(shapes)
+        inp["lens"] = U.snap_lens(inp["index"], inp["lens"])   # index alignment needs equal labels co-located
+        inp["red"] = rng.choice(["mean", "max", "min", "count", "sum"])
+        inp["tailsel"] = rng.random() < 0.5
         yield "api", inp
 
 
